@@ -53,6 +53,8 @@ type pstr struct {
 	Abs   bool     `json:"abs"`
 	Comps []string `json:"comps"`
 	Trail bool     `json:"trail"`
+	Pre   string   `json:"pre"`  // procfs alias in front of the name: "" pcwd ptcwd proot pfd
+	Pdir  []string `json:"pdir"` // pfd: the directory the descriptor is opened on
 }
 
 type dkind struct {
@@ -148,15 +150,27 @@ var traced = []string{"open", "openat", "openat2", "readlink", "readlinkat", "un
 	"access", "faccessat", "faccessat2", "stat", "lstat", "newfstatat", "statx", "execve", "execveat",
 	"chmod", "rename", "getppid", "getsid"}
 
-func render(top string, p pstr) string {
+// render gives the string handed to the probe and, for pfd, the directory the probe has to open
+// (the probe then prefixes /proc/self/fd/<N>/ itself).
+func render(top, cwd string, p pstr) (string, string) {
 	s := strings.Join(p.Comps, "/")
 	if p.Trail {
 		s += "/"
 	}
-	if p.Abs {
-		return top + "/" + s
+	switch p.Pre {
+	case "pcwd":
+		return "/proc/self/cwd/" + s, ""
+	case "ptcwd":
+		return "/proc/thread-self/cwd/" + s, ""
+	case "proot":
+		return "/proc/self/root" + cwd + "/" + s, ""
+	case "pfd":
+		return s, under(top, p.Pdir)
 	}
-	return s
+	if p.Abs {
+		return top + "/" + s, ""
+	}
+	return s, ""
 }
 
 func hexs(s string) string { return "x" + hex.EncodeToString([]byte(s)) }
@@ -262,9 +276,15 @@ func runMain(args []string) error {
 	if err != nil {
 		return err
 	}
-	cases, err := hx.ReadLines[tcase](args[2])
+	allCases, err := hx.ReadLines[tcase](args[2])
 	if err != nil {
 		return err
+	}
+	cases := allCases[:0]
+	for _, c := range allCases {
+		if c.Fam != "skip" { // an index of the generator's space that denotes no well-formed string
+			cases = append(cases, c)
+		}
 	}
 	probe := args[3]
 	for _, f := range forests {
@@ -293,15 +313,22 @@ func runMain(args []string) error {
 		for i := lo; i < hi; i++ {
 			c := cases[i]
 			ft := filepath.Join(top, "f"+strconv.Itoa(c.F))
-			s1, s2 := render(ft, c.P1), render(ft, c.P2)
+			s1, f1 := render(ft, under(ft, c.Cwd), c.P1)
+			s2, f2 := render(ft, under(ft, c.Cwd), c.P2)
 			used[i-lo] = strs{s1, s2}
+			if f1 != "" {
+				used[i-lo].s1 = "/proc/self/fd/<" + f1 + ">/" + s1
+			}
+			if f2 != "" {
+				used[i-lo].s2 = "/proc/self/fd/<" + f2 + ">/" + s2
+			}
 			fl := "-"
 			if len(c.Fl) > 0 {
 				fl = strings.Join(c.Fl, ",")
 			}
-			fmt.Fprintf(&script, "%d %s %s %d %s %s %s %s %s %s %s %s %s %s\n", i, hexs(under(ft, c.Cwd)), c.Sc, c.Acc, fl,
-				c.D1.Lo, c.D1.Hi, hexs(under(ft, c.D1.Dirp)), hexs(s1),
-				c.D2.Lo, c.D2.Hi, hexs(under(ft, c.D2.Dirp)), hexs(s2), strings.Join(c.Args, ","))
+			fmt.Fprintf(&script, "%d %s %s %d %s %s %s %s %s %s %s %s %s %s %s %s\n", i, hexs(under(ft, c.Cwd)), c.Sc, c.Acc, fl,
+				c.D1.Lo, c.D1.Hi, hexs(under(ft, c.D1.Dirp)), hexs(s1), hexs(f1),
+				c.D2.Lo, c.D2.Hi, hexs(under(ft, c.D2.Dirp)), hexs(s2), hexs(f2), strings.Join(c.Args, ","))
 		}
 		sp := filepath.Join(top, fmt.Sprintf("script.%d", lo))
 		op := filepath.Join(top, fmt.Sprintf("out.%d", lo))
